@@ -26,6 +26,18 @@ def veq(a, b):
     return L.eq(a, b)
 
 
+_OSERRORS = {'exc:' + n for n in ('OSError', 'FileNotFoundError', 'IsADirectoryError', 'NotADirectoryError', 'FileExistsError',
+                                  'PermissionError')}
+
+
+def _norm_oserror(v):
+    if isinstance(v, (list, tuple)):
+        return [_norm_oserror(x) for x in v]
+    if type(v) is str and v in _OSERRORS:
+        return 'exc:OSError'
+    return v
+
+
 def diff_sig(a, b):
     """A short, stable description of the first concrete difference between an
     implementation value and a reference value (for violation signatures)."""
@@ -207,6 +219,9 @@ class Driver:
         exception class, same tree (paths, kinds, contents)."""
         eng, w = self.eng, self.w
         impl, ref, _ = self.last
+        if getattr(self, 'any_oserror', False) and impl[0] == 'ok' and ref[0] == 'ok':
+            # fault runs: which OSError subclass the library turns an injected OSError into is not prescribed
+            impl, ref = ('ok', _norm_oserror(impl[1])), ('ok', _norm_oserror(ref[1]))
         sig = tuple(sig)
         if impl[0] != ref[0]:
             eng.check(prefix + '.outcome', False,
@@ -214,7 +229,10 @@ class Driver:
                              ref[0], exc_name(ref[1]) if ref[0] == 'exc' else '-'),
                       info={'impl': repr(impl[1])[:300], 'ref': repr(ref[1])[:300]})
         if impl[0] == 'exc':
-            eng.check(prefix + '.exctype', exc_name(impl[1]) == exc_name(ref[1]),
+            same_exc = exc_name(impl[1]) == exc_name(ref[1])
+            if getattr(self, 'any_oserror', False) and isinstance(impl[1], OSError) and isinstance(ref[1], OSError):
+                same_exc = True
+            eng.check(prefix + '.exctype', same_exc,
                       sig + (exc_name(impl[1]), exc_name(ref[1])), info={'impl': repr(impl[1])[:300]})
             self.sync_rollback_latitude()
         else:
